@@ -71,6 +71,35 @@ def run_job(job):
                 dup = [(a["n"], b["n"]) for i, a in enumerate(records) for b in records[i + 1:] if a["export"] == b["export"]]
                 V("two distinct registrations returned the same export key", "registrations %s (user/password/server: %s)" % (
                     dup, [(r["user"], proto.short(r["pw"]), r["srv"]) for r in records if r["n"] in dup[0]]))
+            # separation under IDENTICAL client randomness: with the same blind and the same envelope nonce, the export key
+            # must still differ as soon as the password, the user (credential id) or the server differs
+            base_users = [("alice", b"same password for everybody"), ("alicf", b"same password for everybody"), ("alice", b"same password for everybodz"),
+                          ("P" * 57 + "alice", b"same password for everybody"), ("P" * 57 + "bob", b"same password for everybody"),
+                          ("Q" * 25 + "A", b"pw"), ("Q" * 25 + "B", b"pw"), ("R" * 41 + "A", b"pw"), ("R" * 41 + "B", b"pw"), ("S" * 200 + "A", b"pw"), ("S" * 200 + "B", b"pw")]
+            same_tape = []
+            for u, pw in base_users:
+                for srv in ("S1", "S2"):
+                    s.rng("fixed", proto.H("c16-fixed-client-tape", su, wi))
+                    a = s.cmd("creg_start", rng="fixed", pw=pw, out_state="st.cs", out_msg="st.rq")
+                    b = s.cmd("sreg_start", setup=srv, req="st.rq", cred=u.encode(), out="st.rr")
+                    c = s.cmd("creg_finish", rng="fixed", state="st.cs", pw=pw, resp="st.rr", out="st.up")
+                    evals += 3
+                    if not (a.ok and b.ok and c.ok):
+                        V("control: registration failed", str([dict(x) for x in (a, b, c) if x.failed])[:300])
+                        continue
+                    stats["registrations"] += 1
+                    same_tape.append(((u, pw, srv), c.export_key, bx(c.msg)[s.sz.npk + s.sz.nh:s.sz.npk + s.sz.nh + 32]))
+            if same_tape:
+                if len({n for _, _, n in same_tape}) != 1:
+                    V("control: identical client tapes did not give identical envelope nonces", "")
+                byk = {}
+                for who, ek, _ in same_tape:
+                    byk.setdefault(ek, []).append(who)
+                for ek, whos in byk.items():
+                    if len(whos) > 1:
+                        V("different user / password / server but the same export key (identical client randomness)",
+                          "export key %s shared by %s" % (ek, [(u if len(u) < 30 else u[:8] + "..(%d)" % len(u), proto.short(p_), sv) for u, p_, sv in whos]))
+                stats["same_tape_registrations"] = stats.get("same_tape_registrations", 0) + len(same_tape)
             # logins in random interleaving
             nlog = 60 if tier == "quick" else 200
             for k in range(nlog):
